@@ -309,6 +309,9 @@ type c16CCase struct {
 	N     int   `json:"ha_nodes_before"`
 	W     int   `json:"configured_count"`
 	Other []int `json:"other_replicas"` // per replica h3.. : 0 HA alive, 1 HA dead, 2 re-registered as cascade (alive), 3 cascade and dead
+	// MasterAlive: the master does not die; the manager goes on publishing the list, which must not
+	// contain a host that is registered as a cascade replica, reachable or not
+	MasterAlive bool `json:"master_stays_alive,omitempty"`
 }
 
 func c16CRun(r *vt.Run, c c16CCase) {
@@ -340,7 +343,9 @@ func c16CRun(r *vt.Run, c c16CCase) {
 				w.Servers[x].Crash(w)
 			}
 		}
-		w.Servers["h1"].Crash(w) // ... and before the list is published again the master dies
+		if !c.MasterAlive {
+			w.Servers["h1"].Crash(w) // ... and before the list is published again the master dies
+		}
 		realAlive := 0
 		for _, x := range list {
 			if x != "h1" && !isCascade[x] && w.Servers[x].Up {
@@ -371,6 +376,14 @@ func c16CRun(r *vt.Run, c c16CCase) {
 			if len(w.Panics) > np || len(w.Unknown) > 0 {
 				r.Violate("C16/0-engine", fmt.Sprintf("panics=%v at %s unknown=%v; case %+v", w.Panics, h.PanicWhere(), w.Unknown, c), c16Case{C: &c})
 				return
+			}
+			if c.MasterAlive {
+				for _, x := range h.ActiveNodes() {
+					if isCascade[x] {
+						r.Violate("C16/6-cascade-never-in-active-list", fmt.Sprintf("%s is registered as a cascade replica (up=%v) and is in the list %v published by iteration %d; case %+v", x, w.Servers[x].Up, h.ActiveNodes(), i, c), c16Case{C: &c})
+					}
+				}
+				r.Count("part_c_lists_published_with_master_alive")
 			}
 			w.Advance(5 * time.Second)
 		}
@@ -516,6 +529,10 @@ func checkC16(r *vt.Run) {
 					}
 					r.Crumb(c16Case{C: &c})
 					c16CRun(r, c)
+					c2 := c
+					c2.MasterAlive = true
+					r.Crumb(c16Case{C: &c2})
+					c16CRun(r, c2)
 				}
 			}
 		}
